@@ -356,3 +356,118 @@ def _arith(IRArith, nid, left, right):
     node = IRArith(nid, "signal-M")
     node.op, node.left, node.right = "+", left, right
     return node
+
+
+# =================================================================================================
+# ConnectionPlanner._add_self_feedback_connections: every placement flagged has_self_feedback (a one-combinator folded
+# cell) gets exactly one RED wire from its own output to its own input carrying its feedback signal; a placement without
+# the flag (or without a feedback signal) gets none.  Evaluated on the REAL method over an enumerated box (three placements,
+# each flagged / flagged without signal / unflagged): bounded.
+# =================================================================================================
+SFQ = "dsl_compiler/src/layout/connection_planner.py::ConnectionPlanner._add_self_feedback_connections"
+
+
+def _selffb_post(a, res):
+    plan = a.self.layout_plan
+    want = [(pid, p.properties["feedback_signal"]) for pid, p in plan.entity_placements.items()
+            if p.properties.get("has_self_feedback") and p.properties.get("feedback_signal")]
+    got = [(w.source_entity_id, w.signal_name) for w in plan.wire_connections]
+    shape = all(w.source_entity_id == w.sink_entity_id and w.wire_color == "red" and w.source_side == "output" and w.sink_side == "input" for w in plan.wire_connections)
+    return sorted(got) == sorted(want) and shape
+
+
+self_feedback = Contract(qualname=SFQ, params={"self": ty.TOpaque("planner")},
+                         ensures=[("one red output->input self-wire per flagged placement on its feedback signal, none otherwise", _selffb_post)],
+                         verify=False, properties=("C04",), note="evaluated on the real method over an enumerated box (bounded stand-in)")
+CONTRACTS.append(self_feedback)
+
+
+def self_feedback_arg_sets():
+    from dsl_compiler.src.layout.connection_planner import ConnectionPlanner
+    from dsl_compiler.src.layout.layout_plan import LayoutPlan
+
+    class _Diag:
+        def info(self, *a, **k):
+            pass
+        warning = error = info
+
+    out = []
+    for kinds in _it4.product(("flagged", "nosignal", "plain"), repeat=3):
+        plan = LayoutPlan()
+        for i, k in enumerate(kinds):
+            extra = {}
+            if k in ("flagged", "nosignal"):
+                extra["has_self_feedback"] = True
+            if k == "flagged":
+                extra["feedback_signal"] = f"signal-{'ABC'[i]}"
+            plan.create_and_add_placement(ir_node_id=f"e{i}", entity_type="arithmetic-combinator", position=None, footprint=(1, 2), role="arithmetic", debug_info={}, **extra)
+        cp = object.__new__(ConnectionPlanner)
+        cp.layout_plan, cp.diagnostics = plan, _Diag()
+        out.append({"self": cp})
+    return out
+
+
+# =================================================================================================
+# MemoryBuilder.cleanup_unused_gates: exactly the gates marked unused disappear — their placements, every wire that touches
+# them and every sink entry naming them — and nothing else does (the gates of other cells, their wires and sinks stay).
+# Evaluated on the REAL method over an enumerated box (two cells x {no gate unused, write gate, hold gate, both}): bounded.
+# =================================================================================================
+CUQ = "dsl_compiler/src/layout/memory_builder.py::MemoryBuilder.cleanup_unused_gates"
+
+
+def _cleanup_post(a, res):
+    sc = a.self._scenario
+    plan, g = a.layout_plan, a.signal_graph
+    removed, kept = set(sc["removed"]), set(sc["all"]) - set(sc["removed"])
+    ok = [set(plan.entity_placements) == kept | {"consumer"}]
+    wires = {(w.source_entity_id, w.sink_entity_id) for w in plan.wire_connections}
+    ok.append(wires == {(s, t) for (s, t) in sc["wires"] if s not in removed and t not in removed})
+    for sig, sinks in sc["sinks"].items():
+        ok.append(list(g._sinks.get(sig, [])) == [x for x in sinks if x not in removed])
+    return all(ok)
+
+
+cleanup_gates = Contract(qualname=CUQ, params={"self": ty.TOpaque("builder"), "layout_plan": ty.TOpaque("plan"), "signal_graph": ty.TOpaque("graph")},
+                         ensures=[("exactly the unused gates, their wires and their sink entries are removed", _cleanup_post)],
+                         verify=False, properties=("C04", "C03"), note="evaluated on the real method over an enumerated box (bounded stand-in)")
+CONTRACTS.append(cleanup_gates)
+
+
+def cleanup_arg_sets():
+    from dsl_compiler.src.layout.layout_plan import LayoutPlan, WireConnection
+    from dsl_compiler.src.layout.memory_builder import MemoryBuilder, MemoryModule
+    from dsl_compiler.src.layout.signal_graph import SignalGraph
+
+    class _Diag:
+        def info(self, *a, **k):
+            pass
+        warning = error = info
+
+    out = []
+    modes = ((False, False), (True, False), (False, True), (True, True))
+    for m0, m1 in _it4.product(modes, repeat=2):
+        plan, g = LayoutPlan(), SignalGraph()
+        mb = object.__new__(MemoryBuilder)
+        mb.diagnostics, mb._modules = _Diag(), {}
+        all_ids, removed, wires, sinks = [], [], [], {}
+        plan.create_and_add_placement(ir_node_id="consumer", entity_type="arithmetic-combinator", position=None, footprint=(1, 2), role="arithmetic", debug_info={})
+        for name, (wu, hu) in (("a", m0), ("b", m1)):
+            w, h = f"{name}_write_gate", f"{name}_hold_gate"
+            for nid in (w, h):
+                plan.create_and_add_placement(ir_node_id=nid, entity_type="decider-combinator", position=None, footprint=(1, 2), role="memory", debug_info={})
+                all_ids.append(nid)
+            mod = MemoryModule(name, "signal-M")
+            mod.write_gate, mod.hold_gate = plan.get_placement(w), plan.get_placement(h)
+            mod.write_gate_unused, mod.hold_gate_unused = wu, hu
+            mb._modules[name] = mod
+            removed += ([w] if wu else []) + ([h] if hu else [])
+            for s, t in ((w, h), (h, h), (h, "consumer"), ("consumer", w)):
+                plan.add_wire_connection(WireConnection(source_entity_id=s, sink_entity_id=t, signal_name="signal-M", wire_color="red"))
+                wires.append((s, t))
+            for sig, sk in ((f"data_{name}", [w, "consumer"]), (f"cell_{name}", [h, "consumer", w])):
+                for x in sk:
+                    g.add_sink(sig, x)
+                sinks[sig] = list(sk)
+        mb._scenario = {"all": all_ids, "removed": removed, "wires": wires, "sinks": sinks}
+        out.append({"self": mb, "layout_plan": plan, "signal_graph": g})
+    return out
